@@ -190,34 +190,42 @@ def digits (bs : List UInt8) : Option Nat :=
 
 def sub (bs : List UInt8) (a b : Nat) : List UInt8 := (bs.drop a).take (b - a)
 
+/-- the tail of `parse_rfc3339`: month/day `00` are rejected, then `from_parts(..).ok_or_else(..)` -/
+def finish (years months days hours minutes seconds nanos : Nat) : Outcome Nat :=
+  if months = 0 ∨ days = 0 then .err
+  else
+    match fromParts ⟨years, months, days, hours, minutes, seconds, nanos⟩ with
+    | .ok (some t) => .ok t
+    | .ok none => .err
+    | .err => .err
+    | .panic => .panic
+
+/-- every `digits(..)?` must have succeeded -/
+def parseFields (years months days hours minutes seconds nanos : Option Nat) : Outcome Nat :=
+  match years, months, days, hours, minutes, seconds, nanos with
+  | some years, some months, some days, some hours, some minutes, some seconds, some nanos =>
+    finish years months days hours minutes seconds nanos
+  | _, _, _, _, _, _, _ => .err
+
+/-- the sub-second field: absent, or `.` followed by 1–9 digits, scaled to nanoseconds -/
+def parseNanos (s : List UInt8) : Option Nat :=
+  if s.length > 20 then
+    if s[19]? ≠ some 46 ∨ s.length = 21 then none
+    else
+      let subsecond := sub s 20 (s.length - 1)
+      (digits subsecond).map fun v => v * 10 ^ (9 - subsecond.length)
+  else some 0
+
 /-- `parse_rfc3339(fmt: &str)`, check for check in the code's order. No site can panic: all indices are below the
-    checked length, slicing is on bytes, month and day `00` are rejected before `from_parts`. -/
+    checked length, slicing is on bytes, month and day `00` are rejected before `from_parts`. (Every failure is
+    the same `Err`, so the order in which the fields are examined is not observable.) -/
 def parseRfc3339 (s : List UInt8) : Outcome Nat :=
   if s.length < 20 ∨ s.length > 30 then .err
   else if s[4]? ≠ some 45 ∨ s[7]? ≠ some 45 ∨ s[10]? ≠ some 84 ∨ s[13]? ≠ some 58 ∨ s[16]? ≠ some 58 then .err
   else if s[s.length - 1]? ≠ some 90 then .err
   else
-    match digits (sub s 0 4), digits (sub s 5 7), digits (sub s 8 10), digits (sub s 11 13),
-          digits (sub s 14 16), digits (sub s 17 19) with
-    | some years, some months, some days, some hours, some minutes, some seconds =>
-      let nanos : Option Nat :=
-        if s.length > 20 then
-          if s[19]? ≠ some 46 ∨ s.length = 21 then none
-          else
-            let subsecond := sub s 20 (s.length - 1)
-            (digits subsecond).map fun v => v * 10 ^ (9 - subsecond.length)
-        else some 0
-      match nanos with
-      | none => .err
-      | some nanos =>
-        if months = 0 ∨ days = 0 then .err
-        else
-          match fromParts ⟨years, months, days, hours, minutes, seconds, nanos⟩ with
-          | .ok (some t) => .ok t
-          | .ok none => .err
-          | .err => .err
-          | .panic => .panic
-    | _, _, _, _, _, _ => .err
+    parseFields (digits (sub s 0 4)) (digits (sub s 5 7)) (digits (sub s 8 10)) (digits (sub s 11 13))
+      (digits (sub s 14 16)) (digits (sub s 17 19)) (parseNanos s)
 
 /-- `Buffer::<30>::buffer(value)` for a one-`write_str` Display (core/src/buf.rs) -/
 def buffer30 (s : List UInt8) : Option (List UInt8) := if s.length ≤ 30 then some s else none
